@@ -196,10 +196,10 @@ def run_session(job):
         pending = "run"
         stopped_by_breakpoint = False
         steps = 0
-        max_actions = 150 if kind == "calibrate" else rng.randrange(6, 25)
+        max_actions = 150 if kind == "calibrate" else (rng.randrange(30, 50) if many_breakpoints else rng.randrange(6, 25))
         while steps < max_actions:
             steps += 1
-            if pending == "run" and not pause_in_flight and rng.random() < (0.5 if kind == "race" else 0.15):
+            if pending == "run" and not pause_in_flight and rng.random() < (0.9 if many_breakpoints else 0.5 if kind == "race" else 0.15):
                 # a pause arriving at an arbitrary moment of the run loop
                 time.sleep(rng.choice([0, 0.0005, 0.002, 0.01, 0.03]))
                 # (a step request that arrives while the machine runs freely ends the run like a pause does)
@@ -302,6 +302,9 @@ def run_session(job):
             # ---- choose the next action
             if kind == "calibrate":
                 act = "stepIn"
+            elif many_breakpoints:
+                # (many rounds of continue and pause: the breakpoints stay as they are)
+                act = rng.choice(["continue"] * 7 + ["stepIn", "next", "evaluate"])
             else:
                 act = rng.choice(["continue", "continue", "stepIn", "next", "stepOut", "evaluate", "setBreakpoints"])
             ins = body[trace[cur][0]]
